@@ -54,6 +54,7 @@ PROPS = {
         'level': 'proof',
         'units': [
             {'engine': 'verus', 'name': 'end_next', 'tier': 'quick', 'role': 'split (one copy per downstream block) and broadcast (All: singleton groups)'},
+            {'engine': 'verus', 'name': 'zip', 'tier': 'quick', 'role': 'Zip::next: positional one-to-one pairing, min(|a|,|b|) pairs'},
         ],
         'explanation': 'End::next sends one copy of every element to each downstream block group (split) and, with singleton groups (All), to every replica (broadcast).',
         'assumptions': [],
@@ -74,6 +75,8 @@ PROPS = {
         'level': 'proof',
         'units': [
             {'engine': 'verus', 'name': 'start_next', 'tier': 'quick', 'exclude_obligations': ['start.progress_on_replica_end'], 'role': 'Start::next: Terminate / FlushAndRestart accounting, absorbed control elements, per-iteration reset'},
+            {'engine': 'verus', 'name': 'reorder', 'tier': 'quick', 'role': 'Reorder::next: FlushAndRestart only when the buffer is empty; nothing carried over'},
+            {'engine': 'verus', 'name': 'zip', 'tier': 'quick', 'role': 'Zip::next: stashes cleared at FlushAndRestart'},
         ],
         'explanation': 'Verus proof of the per-call contract of Start::next (any number of upstream replicas, any batches): FlushAndRestart is returned exactly when every '
                        'upstream FlushAndRestart of the iteration was consumed (and the per-iteration state restarts), Terminate exactly when every upstream Terminate was consumed, '
@@ -86,6 +89,7 @@ PROPS = {
             {'engine': 'verus', 'name': 'batcher', 'tier': 'quick', 'role': 'batches are sent whole and in order'},
             {'engine': 'verus', 'name': 'start_next', 'tier': 'quick', 'exclude_obligations': ['start.progress_on_replica_end'], 'role': 'old.unread ++ received == taken ++ new.unread; data returned unchanged in pull order'},
             {'engine': 'verus', 'name': 'end_next', 'tier': 'quick', 'role': 'one sender per group: every element is appended to that sender in arrival order'},
+            {'engine': 'verus', 'name': 'reorder', 'tier': 'quick', 'role': 'Reorder::next: releases the minimum first, only when covered by a watermark / iteration end, no loss'},
         ],
         'explanation': 'order preservation along a single-replica path: Batcher view equation (Verus), Start::next stream equation (nothing lost, duplicated or reordered between link and chain), End::next appends in arrival order.',
         'assumptions': ['reorder() and sinks/sources: see unit list'],
@@ -98,5 +102,15 @@ PROPS = {
         'explanation': 'Start::next returns Watermark(new frontier) immediately when a pulled watermark advances the frontier (O2) and never lets the frontier advance silently; '
                        'the obligation fails on the FlushAndRestart arm (update(sender, MAX) result discarded) which is the recorded known finding F1.',
         'assumptions': ['WatermarkFrontier::update contract (unit frontier)'],
+    },
+    'C06': {
+        'level': 'proof',
+        'units': [
+            {'engine': 'verus', 'name': 'start_next', 'tier': 'quick', 'exclude_obligations': ['start.progress_on_replica_end'], 'role': 'Start::next forwards exactly the frontier announcements; announced watermarks strictly increase; data is never altered'},
+            {'engine': 'verus', 'name': 'reorder', 'tier': 'quick', 'role': 'Reorder::next: the watermark follows every buffered element it covers and is forwarded unchanged'},
+            {'engine': 'verus', 'name': 'zip', 'tier': 'quick', 'role': 'Zip::next: a pair carries the max of the two timestamps'},
+        ],
+        'explanation': 'per-operator watermark contracts proved on the real next() functions (Verus, unbounded) plus the frontier / event-time window contracts (Kani single-call harnesses, bounded state size).',
+        'assumptions': ['W_in: the operator input respects the watermark contract', 'Fold/KeyedFold/FlatMap/AddTimestamp/WindowOperator wiring: see unit list'],
     },
 }
